@@ -20,7 +20,7 @@ PROPS = {
         level_text="Proof (all inputs, all histories): the rebuilt function-name map consists exactly of (position of a live local function after recalculate_ids = the index its stored id is mapped to, body name) "
                    "and (position of a live function import among the live function imports = its Wasm function index, custom name). Partial proof for the local / global maps (written back with the parsed "
                    "indices: right exactly when the id maps are the identity on the named ids; for globals the entity is the same by fingerprint). The whole property (soundness and retention of function, "
-                   "local and global names against stable handles, naming calls, conversions) is decided per history in Coq on the decoded real output. Known classes D21, D25 (what is left of it: imports.set_fn_name on ids of imports added / converted after parsing), D202, D06, D26; D201 and the Module::set_fn_name / miscount parts of D25 are repaired (fix: commits).",
+                   "local and global names against stable handles, naming calls, conversions) is decided per history in Coq on the decoded real output. Known classes D21, D25 (what is left of it: imports.set_fn_name on ids of imports added / converted after parsing), D202; D201, the Module::set_fn_name / miscount parts of D25 and the index-space defects D06 / D26 (a deleted item stayed in the function / global vector; former witnesses: C29_former_D06_witness_holds, C29_former_D26_witness_holds) are repaired (fix: commits).",
         level_note="Trusted: Coq kernel + vm_compute; the harness (module generator with fingerprints, name tokens, wasmparser decoding of the output's name section and layout). Modelled, not verified: "
                    "parse_internal's name handling, the naming API, the name-section part of encode_internal. The specification's reading of 'attached by a naming call' for conversions is stated in "
                    "CheckNames.v (header) - a converted function keeps its name (the import field name the API assigns is accepted as well).",
